@@ -35,6 +35,7 @@ type TxSpec struct {
 	In   []string `json:"in"`
 	NOut int      `json:"nout"`
 	Vote int      `json:"vote,omitempty"` // >0: first output is a vote output for key Vote-1
+	Bad  bool     `json:"bad,omitempty"`  // outputs exceed the inputs: validation rejects it and the pool remembers the error
 }
 
 type Event struct {
@@ -138,6 +139,9 @@ func buildWorld(sc *Scenario) (*world, error) {
 			n = 1
 		}
 		each := (sum - cl.DefaultFee) / uint64(n)
+		if ts.Bad {
+			each = sum/uint64(n) + 1 + uint64(i)
+		}
 		var outs []cl.OutSpec
 		for k := 0; k < n; k++ {
 			o := cl.OutSpec{Amount: each}
